@@ -104,14 +104,40 @@ def eff_row(chunks):
     return [(ch, sgrterm.freeze(dict(e))) for ch, e in wire.eff_cells_of_chunks(chunks)]
 
 
+def plain(row):
+    return all(not a for _, a in row)
+
+
 def mk_array(case_rows, container):
+    """the array handed to render_to_terminal, in the shapes callers use:
+    list            list of FmtStr
+    str             list of plain str (all rows unformatted)
+    mixed           list where the unformatted rows are plain str and the others FmtStr
+    fsarray         FSArray whose declared width is the longest row (rows are NOT padded to it)
+    fsarray:W       FSArray of declared width max(W, longest row) - W = the terminal width or more, what
+                    FSArray(h, t.width) / fsarray(rows, width=t.width) give; rows shorter than W stay short
+    fsarrayset:W    FSArray(n, W) filled with arr[i] = row, unformatted rows assigned as plain str
+    text:N:W        BaseWindow.array_from_text_rc(text, N, W) (what window.array_from_text returns); the case's rows ARE
+                    the rows this builder produced (container_for)"""
     rows = [wire.mk_fmt(r) for r in case_rows]
-    if container == "str":
-        return ["".join(t for t, _ in r) for r in case_rows]
-    if container == "fsarray":
-        a = FSArray(0, max([len(r) for r in rows] + [0]))
+    texts = ["".join(t for t, _ in r) for r in case_rows]
+    kind, _, arg = container.partition(":")
+    if kind == "str":
+        return texts
+    if kind == "mixed":
+        return [t if plain(cr) else f for cr, t, f in zip(case_rows, texts, rows)]
+    if kind == "fsarray":
+        a = FSArray(0, max([len(r) for r in rows] + [int(arg or 0)]))
         a.rows = rows
         return a
+    if kind == "fsarrayset":
+        a = FSArray(len(rows), max([len(r) for r in rows] + [int(arg)]))
+        for i, (cr, t, f) in enumerate(zip(case_rows, texts, rows)):
+            a[i] = t if plain(cr) else f
+        return a
+    if kind == "text":
+        n, w = (int(x) for x in arg.split(":"))
+        return FullscreenWindow.array_from_text_rc("\n".join(texts), n, w)
     return rows
 
 
@@ -304,7 +330,7 @@ def rand_array(r, h, w, prev):
             if m < 0.3:
                 rows.append(group(old))                                   # unchanged
             elif m < 0.55:
-                a = r.choice(ATTS)
+                a = r.choice(ATTS + [{}, {}, {}])      # {}: the same text unformatted - as a plain str row in `mixed`/`str`
                 rows.append(group([(ch, a) for ch, _ in old]))            # same text, other formatting
             elif m < 0.8:
                 rows.append(group(old[:r.randint(0, len(old))]))          # cut
@@ -316,13 +342,26 @@ def rand_array(r, h, w, prev):
     return rows
 
 
-def container_for(r, rows):
-    opts = ["list"]
-    if rows and len({sum(len(t) for t, _ in row) for row in rows}) == 1:
-        opts.append("fsarray")
-    if all(all(not a for _, a in row) for row in rows):
+def container_for(r, rows, w=None):
+    """-> (container, rows).  `w` = terminal width (None: only the width-independent shapes)."""
+    opts = ["list", "list", "mixed", "fsarray"]
+    if all(plain(row) for row in rows):
         opts.append("str")
-    return r.choice(opts)
+    if w is not None:
+        opts += ["fsarray:%d" % w, "fsarray:%d" % (w + 2), "fsarrayset:%d" % w]
+        if rows and all(plain(row) for row in rows) and r.random() < 0.5:
+            # built from text by array_from_text_rc: the rows are whatever that builder makes of the text
+            texts = ["".join(t for t, _ in row) for row in rows]
+            if all("\n" not in t and "\r" not in t for t in texts):
+                n = len(rows) + r.choice([0, 0, 1])
+                built = FullscreenWindow.array_from_text_rc("\n".join(texts), n, max(w, 1))
+                rows2 = [[(row.s, {})] if row.s else [] for row in built.rows]
+                texts2 = ["".join(t for t, _ in row) for row in rows2]
+                # keep it only if re-building from the produced rows gives the same array (mk_array does exactly that)
+                again = FullscreenWindow.array_from_text_rc("\n".join(texts2), n, max(w, 1))
+                if [x.s for x in again.rows] == [x.s for x in built.rows]:
+                    return "text:%d:%d" % (n, max(w, 1)), rows2
+    return r.choice(opts), rows
 
 
 def rand_history(r, pyte=True):
@@ -342,7 +381,9 @@ def rand_history(r, pyte=True):
         else:
             rows = rand_array(r, h, w, prev)
             prev, rendered_at = rows, (h, w)
-            c["steps"].append(("R", (r.randint(0, h - 1), r.randint(0, w - 1)), rows, container_for(r, rows)))
+            container, rows = container_for(r, rows, w)
+            prev = rows
+            c["steps"].append(("R", (r.randint(0, h - 1), r.randint(0, w - 1)), rows, container))
     if pyte and r.random() < 0.25:
         # inside the context: enter (alternate screen, hide the cursor) ... leave.  pyte has no alternate screen.
         c["steps"] = [("E",)] + c["steps"] + [("X",)]
@@ -361,6 +402,11 @@ def all_arrays(cellvals, maxh, maxlen):
     for n in range(maxh + 1):
         for a in itertools.product(rows, repeat=n):
             yield list(a)
+
+
+# the same text with and without formatting meets as FmtStr / plain str / FSArray row in consecutive renders
+PAIR_FIRST = ("list", "mixed", "fsarrayset:W")
+PAIR_SECOND = ("list", "mixed", "fsarray:W", "fsarrayset:W", "fsarray")
 
 
 def pair_cases(ctx):
@@ -394,7 +440,8 @@ def pair_cases(ctx):
                                   % (h, w, len(vals), maxh, maxlen, total))
         for n, (i, j) in enumerate(pairs):
             cases.append(dict(h=h, w=w, junk=[], cursor=(0, 0), hide=True, pyte=(n % (4 if ctx.thorough else 8) == 0), pair=True,
-                              steps=[("R", (0, 0), arrays[i], "list"), ("R", (h - 1, w - 1), arrays[j], "list")]))
+                              steps=[("R", (0, 0), arrays[i], PAIR_FIRST[n % 3].replace("W", str(w))),
+                                     ("R", (h - 1, w - 1), arrays[j], PAIR_SECOND[n % 5].replace("W", str(w)))]))
     return cases
 
 
@@ -496,6 +543,14 @@ def check(ctx):
     r = ctx.rng
     cases = [rand_history(r) for _ in range(6000 if ctx.thorough else 1500)]
     cases += pair_cases(ctx)
+    # the same text with and without formatting on the same row in consecutive renders, as FmtStr / plain str / FSArray
+    # rows, and FSArrays whose declared width is the terminal's or more while their rows are shorter
+    red = {"fg": 31}
+    for first, second in itertools.product((("ab", red), ("ab", {}), ("abc", {}), ("abc", red)), (("ab", red), ("ab", {}), ("a", {}), ("", {}))):
+        for c1, c2 in itertools.product(("list", "mixed", "fsarray:3", "fsarray:5", "fsarrayset:3"), repeat=2):
+            cases.append(dict(h=2, w=3, junk=[], cursor=(0, 0), hide=True, pyte=False, pair=True,
+                              steps=[("R", (0, 0), [[first] if first[0] else [], [("x", {})]], c1),
+                                     ("R", (1, 1), [[second] if second[0] else [], [("x", red)]], c2)]))
     # OUTSIDE the domain (control characters in a row): shown, not judged, not tied.  The window writes the newline as it
     # is; the terminal moves down a row instead of showing a glyph, so the screen no longer equals the array (the model's
     # `put` would store it as a cell - which is why `Glyphs` excludes control characters).
